@@ -138,6 +138,43 @@ def run_explore(spec, mod, scen):
   return out
 
 
+def run_fuzz(spec):
+  """Runs the atheris child; returns its statistics in the shape of an explore result (execs reported separately)."""
+  import re  # pylint: disable=g-import-not-at-top
+  import subprocess  # pylint: disable=g-import-not-at-top
+  work = os.path.dirname(spec['out'])
+  cspec = dict(spec, stats=spec['out'] + '.fuzzstats', corpus=os.path.join(work, f'corpus_{spec["scenario"]}_{spec["shard"]}'))
+  sp = spec['out'] + '.fuzzspec'
+  with open(sp, 'w') as f:
+    json.dump(cspec, f)
+  env = dict(os.environ)
+  deps = os.path.join(os.path.dirname(os.path.dirname(os.path.abspath(__file__))), '.deps')
+  env['PYTHONPATH'] = deps + os.pathsep + env.get('PYTHONPATH', '')
+  try:
+    p = subprocess.run([sys.executable, '-m', 'vlib.fuzz_child', sp], capture_output=True, text=True, env=env,
+                       timeout=spec.get('timeout', 3000))
+    rc, err = p.returncode, p.stderr
+  except subprocess.TimeoutExpired as e:
+    rc, err = -9, (e.stderr or b'').decode() if isinstance(e.stderr, bytes) else (e.stderr or '')
+  stats = {}
+  if os.path.exists(cspec['stats']):
+    with open(cspec['stats']) as f:
+      stats = json.load(f)
+  out = {'evaluations': 0, 'nontrivial_hashes': [], 'classes': {}, 'samples': [], 'excluded_known': {}, 'inconclusive': 0,
+         'exhaustive': None, 'extra': {'fuzz_execs': stats.get('execs', 0), 'fuzz_cases_decoded': stats.get('decoded', 0),
+                                       'fuzz_nontrivial_cases': stats.get('nontrivial', 0)}}
+  m = re.findall(r'cov: (\d+) ft: (\d+)', err)
+  if m:
+    out['extra']['fuzz_features'] = int(m[-1][1])
+  if stats.get('failure'):
+    out['failure'] = stats['failure']
+  elif rc not in (0,) and 'No module named' in err and 'atheris' in err:
+    out['extra']['fuzz_unavailable'] = 1     # atheris not installed: the supplementary engine is skipped
+  elif rc != 0 and not stats:
+    out['harness_error'] = f'fuzz child failed rc={rc}: {err[-800:]}'
+  return out
+
+
 def main():
   with open(sys.argv[1]) as f:
     spec = json.load(f)
@@ -151,7 +188,9 @@ def main():
     scen = {s.name: s for s in mod.SCENARIOS}[spec['scenario']]
     if scen.setup is not None:
       scen.setup()
-    if spec['mode'] == 'single':
+    if spec['mode'] == 'fuzz':
+      out = run_fuzz(spec)
+    elif spec['mode'] == 'single':
       out = run_single(spec, mod, scen)
     else:
       out = run_explore(spec, mod, scen)
